@@ -30,7 +30,13 @@ RULE = (
     "complex coefficients of expressions); circuit sets share definitions, or give every circuit its OWN definitions "
     "under the same gate names (a name is unique within one circuit only), or repeat a circuit; history = several "
     "unrelated circuits / sets re-using the same gate names are all serialised first, then read back in another "
-    "order, one text twice; non-trivial = the circuit contains a wrapper, a custom gate or a non-numeric parameter; "
+    "order, one text twice; channel = names outside ASCII (symbols, indexed symbols, definition parameters, custom "
+    "gate names; NFKC-stable identifiers) and exact numbers spelled as Fraction / sympy Integer beyond 2**64 x what "
+    "the caller hands in: a text file it opened itself in one of 10 encodings (ascii, latin-1, cp1252, cp437, "
+    "iso8859-7, utf-8, utf-8-sig, utf-16, utf-32, platform default), one handle for writing and reading (w+), a "
+    "handle used for another circuit before, white space around the JSON text, written through an ascii / utf-8 "
+    "handle and read by path or the reverse, str / PathLike / bytes paths, non-ASCII file names, a path that holds "
+    "an older longer file; non-trivial = the circuit contains a wrapper, a custom gate or a non-numeric parameter; "
     "distinct = distinct canonical case strings"
 )
 ASSUMPTIONS = [
@@ -43,11 +49,16 @@ ASSUMPTIONS = [
     "library == is demanded only when parameters are exactly representable (Python numbers, symbols, rationals, "
     "expressions whose Float atoms survive str()); symbol names are identifiers, no Python keywords; custom gate "
     "names avoid built-in names, wrapper markers and the globals of _builtin_gates",
+    "files: a target / source is a path (read and written as UTF-8 by the library) or a TEXT file object; a file "
+    "object is read back with the encoding it was written with, or by path when it was written as ascii / utf-8 "
+    "(nothing is demanded of a latin-1 file read as UTF-8, nor of binary handles: Readable.read returns str); "
+    "names outside ASCII are NFKC-stable identifiers (Python's parser normalises identifiers: the micro sign "
+    "U+00B5 comes back as Greek mu - a question of the text format, not generated here)",
 ]
 DECIDING = ["to_dict", "circuit_from_dict", "circuitset_from_dict", "save_circuit", "load_circuit",
             "save_circuitset", "load_circuitset", "collect_defs", "deserialize_expr",
             "roundtrip-eq", "roundtrip-free-symbols", "roundtrip-matrices"]
-BUDGET = {"quick": (4, 22, 130), "thorough": (16, 200, 100000)}
+BUDGET = {"quick": (4, 25, 146), "thorough": (16, 200, 100000)}
 CASE_TIMEOUT = {"quick": 15, "thorough": 30}
 
 K3 = "K3-expression-text-name-ambiguity"
@@ -63,7 +74,7 @@ _JUDGED_EXC = [None]  # the exception object a hook has already turned into a ve
 
 
 def classes(tier):
-    return ["builtin", "symbolic", "wrapped", "custom", "mixed", "circuitset", "edge", "history"]
+    return ["builtin", "symbolic", "wrapped", "custom", "mixed", "circuitset", "edge", "history", "channel"]
 
 
 # ============================================================================ structural walker
@@ -733,28 +744,38 @@ def _post_circuitset_from_dict(mon, call):
     _judge_images(mon, name, orig, call.result, text, call.exc)
 
 
+def _file_text(f):
+    """the text a caller-opened file holds now, decoded the way the caller's handle encodes it"""
+    try:
+        f.flush()
+    except Exception:
+        pass
+    with open(f.name, "r", encoding=getattr(f, "encoding", None) or "utf-8", newline="") as g:
+        return g.read()
+
+
 def _read_target(target, pos):
     if isinstance(target, (str, bytes, os.PathLike)):
         with open(target, "r", encoding="utf-8") as f:
             return f.read()
     if hasattr(target, "getvalue"):
         return target.getvalue()[pos or 0:]
-    try:
-        target.flush()
-    except Exception:
-        pass
-    with open(target.name, "r", encoding="utf-8") as f:
-        f.seek(pos or 0)
-        return f.read()
+    text = _file_text(target)
+    # what the caller had written before the call (counted in characters: a position in a file of
+    # another encoding than UTF-8 is no character offset) is not the library's text
+    return text[pos[1]:] if isinstance(pos, tuple) else text
 
 
 def _pre_pos(mon, call):
-    t = call.args[1] if len(call.args) > 1 else None
-    if t is None:
-        t = call.args[0] if call.args else None
-    if hasattr(t, "tell"):
+    t = call.args[1] if len(call.args) > 1 else call.kwargs.get("dump_target")
+    if hasattr(t, "getvalue") and hasattr(t, "tell"):
         try:
             return t.tell()
+        except Exception:
+            return None
+    if hasattr(t, "write") and isinstance(getattr(t, "name", None), (str, bytes, os.PathLike)):
+        try:
+            return ("chars", len(_file_text(t)))
         except Exception:
             return None
     return None
@@ -1009,18 +1030,20 @@ def _safe_custom_names():
             and n not in ("Control", "Exponential")]
 
 
-def rand_def(rng, nprng, name=None, kind=None):
-    """a custom gate definition: numeric unitary (0 params) or symbolic matrix (1-3 params)"""
+def rand_def(rng, nprng, name=None, kind=None, sym_names=None):
+    """a custom gate definition: numeric unitary (0 params) or symbolic matrix (1-3 params);
+    sym_names = the pool its parameter symbols are drawn from (default DEF_SYMBOLS)"""
     name = name or rng.choice(_safe_custom_names())
     kind = kind or rng.choice(["numeric", "symbolic", "symbolic", "nonunitary"])
     nq = rng.choice([1, 1, 2]) if kind != "numeric" else rng.choice([1, 2, 3])
     if kind == "numeric":
         return GC.numeric_custom_def(rng, nprng, nq, name)
     nparams = rng.randint(1, 3)
-    names = rng.sample(DEF_SYMBOLS, nparams)
+    sym_names = sym_names or DEF_SYMBOLS
+    names = rng.sample(sym_names, nparams)
     # no plain/indexed pair with one base inside a definition (that is K3(a), judged on gates)
     while any(GS.base_of(n) in names for n in names if GS.base_of(n)):
-        names = rng.sample(DEF_SYMBOLS, nparams)
+        names = rng.sample(sym_names, nparams)
     syms = tuple(sympy.Symbol(n) for n in names)
     d = 2 ** nq
     if kind == "nonunitary":  # the format does not care about unitarity (the repo's own example is [[t, g], [-g, t]])
@@ -1234,6 +1257,170 @@ def transport(rng, obj, how, index):
 
 TRANSPORTS = ["dict", "dict", "stringio", "path", "file", "pathlike"]
 
+# ---------------------------------------------------------------------------- class "channel"
+# names outside ASCII (identifiers; NFKC-stable: Python's parser normalises identifiers, so a name such as the
+# micro sign U+00B5 is a different question - the text format - and is not generated), some of them inside
+# latin-1 / cp1252, most of them not
+UNICODE_SYMBOLS = ["θ", "φ", "ü", "Δt", "λ", "ω_1", "α", "β", "ñ",
+                   "变量", "θ[0]", "φ[12]", "ü[3]", "été", "Ω", "ß",
+                   "x_é", "длина", "ångle"]
+UNICODE_GATE_NAMES = ["Drehung_ü", "Ф", "门", "Θ", "Ü1", "Gate_é", "Rotθ", "Ñu"]
+# text encodings of a file the caller opened (None = the platform default, whatever it is here)
+FILE_ENCODINGS = ["ascii", "ascii", "latin-1", "cp1252", "utf-8", "utf-8-sig", "utf-16", "utf-32", "cp437",
+                  "iso8859-7", None]
+CHANNEL_KINDS = ["file", "file", "file", "file", "file+", "file+", "file>path", "path>file", "path", "pathlike",
+                 "bytespath", "stringio", "dict"]
+_STALE = '{"stale": "' + "x" * 60000 + '"}'
+
+
+def _stable_identifier(name):
+    import unicodedata
+
+    base = GS.base_of(name) or name
+    return base.isidentifier() and unicodedata.normalize("NFKC", name) == name
+
+
+def channel_names(rng):
+    """(symbol names, names for the parameters of definitions, custom gate names, style)"""
+    style = rng.choice(["unicode", "unicode", "unicode", "mixed", "mixed", "ascii"])
+    usyms = [n for n in UNICODE_SYMBOLS if _stable_identifier(n)]
+    if style == "ascii":
+        pool, gates = list(GS.PLAIN) + ["x[3]", "p[1]"], _safe_custom_names()
+    elif style == "unicode":
+        pool, gates = usyms, UNICODE_GATE_NAMES
+    else:
+        pool, gates = usyms + list(GS.PLAIN), UNICODE_GATE_NAMES + _safe_custom_names()[:4]
+    for _ in range(50):
+        names = rng.sample(pool, rng.randint(2, 4))
+        if not any(GS.base_of(n) in names for n in names if GS.base_of(n)):  # x beside x[i] is K3(a)
+            break
+    else:
+        names = [pool[0]]
+    return names, pool, rng.sample(gates, rng.randint(1, 2)), style
+
+
+def channel_spec(rng):
+    """how the serialised form travels: which kind of target / source the caller hands in"""
+    import sys
+
+    kind = rng.choice(CHANNEL_KINDS)
+    spec = {"kind": kind, "enc": "utf-8", "lead": "", "trail": "", "uname": False, "stale": False, "again": False}
+    if kind in ("file", "file+"):
+        spec["enc"] = rng.choice(FILE_ENCODINGS)
+    elif kind == "file>path":  # the library reads paths as UTF-8: what a caller's ASCII / UTF-8 handle wrote is that
+        spec["enc"] = rng.choice(["ascii", "ascii", "utf-8"])
+    elif kind == "path>file":
+        spec["enc"] = rng.choice(["utf-8", "utf-8-sig"])
+    if kind in ("file", "file+", "file>path", "stringio"):
+        # JSON text may be surrounded by white space: what the caller wrote before and writes after the call
+        spec["lead"] = rng.choice(["", "", "\n", "  ", "\n\t "])
+        spec["trail"] = rng.choice(["", "\n", "\n", " \n\n"])
+    if kind in ("file+", "stringio"):
+        spec["again"] = rng.random() < 0.3  # the handle was used for another circuit before (rewound, truncated)
+    if kind in ("path", "pathlike", "bytespath", "path>file"):
+        spec["stale"] = rng.random() < 0.5  # the path holds an older, longer file
+    if kind not in ("dict", "stringio") and sys.getfilesystemencoding().lower().replace("-", "") == "utf8":
+        spec["uname"] = rng.random() < 0.3
+    return spec
+
+
+def _spec_str(spec):
+    flags = [k for k in ("uname", "stale", "again") if spec[k]]
+    pad = f" pad={spec['lead']!r}/{spec['trail']!r}" if spec["lead"] or spec["trail"] else ""
+    enc = f":{spec['enc']}" if spec["kind"] in ("file", "file+", "file>path", "path>file") else ""
+    return f"{spec['kind']}{enc}{pad}{' ' + '+'.join(flags) if flags else ''}"
+
+
+def transport_channel(rng, obj, spec, index, other=None):
+    """serialise -> a target of the caller's choosing -> deserialise.  ``other`` = what the handle was used for
+    before (spec['again'])"""
+    import pathlib
+
+    from orquestra.quantum.circuits import _serde as S
+
+    is_set = isinstance(obj, list)
+    save, load = (S.save_circuitset, S.load_circuitset) if is_set else (S.save_circuit, S.load_circuit)
+    kind, enc, lead, trail = spec["kind"], spec["enc"], spec["lead"], spec["trail"]
+
+    def save_other(f):
+        if spec["again"] and other is not None:
+            (S.save_circuitset if isinstance(other, list) else S.save_circuit)(other, f)
+            f.seek(0)
+            f.truncate()
+
+    if kind == "dict":
+        text = json.dumps(S.to_dict(obj))
+        d = json.loads(text)
+        return S.circuitset_from_dict(d) if is_set else S.circuit_from_dict(d)
+    if kind == "stringio":
+        buf = io.StringIO()
+        save_other(buf)
+        buf.write(lead)
+        save(obj, buf)
+        buf.write(trail)
+        buf.seek(0)
+        return load(buf)
+    path = os.path.join(_tmpdir(), f"k{index}{'_ü名' if spec['uname'] else ''}.json")
+    try:
+        if spec["stale"]:
+            with open(path, "w", encoding="utf-8") as f:
+                f.write(_STALE)
+        if kind in ("path", "pathlike", "bytespath"):
+            p = path if kind == "path" else pathlib.Path(path) if kind == "pathlike" else os.fsencode(path)
+            save(obj, p)
+            return load(p)
+        if kind == "path>file":
+            save(obj, path)
+            with open(path, "r", encoding=enc) as f:
+                return load(f)
+        if kind == "file+":
+            with open(path, "w+", encoding=enc) as f:
+                save_other(f)
+                f.write(lead)
+                save(obj, f)
+                f.write(trail)
+                f.seek(0)
+                return load(f)
+        with open(path, "w", encoding=enc) as f:
+            f.write(lead)
+            save(obj, f)
+            f.write(trail)
+        if kind == "file>path":
+            return load(path)
+        with open(path, "r", encoding=enc) as f:
+            return load(f)
+    finally:
+        if os.path.exists(path):
+            os.remove(path)
+
+
+def rand_channel_circuit(rng, nprng, quick, names, def_pool, gate_names):
+    """a small circuit whose symbols, definition parameters and custom gate names come from the given pools;
+    some numbers are spelled as fractions.Fraction / exact sympy numbers beyond 2**64"""
+    from fractions import Fraction
+
+    from orquestra.quantum.circuits import Circuit
+    from orquestra.quantum.circuits import _builtin_gates as B
+
+    symbols = [sympy.Symbol(n) for n in names]
+    defs = [rand_def(rng, nprng, n, rng.choice(["symbolic", "symbolic", "nonunitary", "numeric"]), def_pool)
+            for n in gate_names]
+    c = rand_circuit(rng, nprng, rng.choice(["custom", "custom", "mixed", "symbolic"]), quick, defs, symbols,
+                     max_ops=4 if quick else 8)
+    if rng.random() < 0.3:
+        p = rng.choice([Fraction(rng.randint(-9, 9), rng.choice([2, 3, 7])), sympy.Integer(2 ** 64 + rng.randint(1, 9)),
+                        sympy.Rational(2 ** 70 + 1, 2 ** 65 + 3), rng.choice(symbols) * Fraction(1, 3),
+                        sympy.Rational(rng.randint(1, 5), 10 ** 9), -(2 ** 63) - rng.randint(1, 5)])
+        g = rng.choice([B.RX, B.RZ, B.PHASE])(p)
+        c = Circuit(list(c.operations) + [g(rng.randrange(max(1, c.n_qubits)))], n_qubits=c.n_qubits)
+    wanted = [s for s in symbols if not s.name.isascii()]
+    if wanted and describe_circuit(c).isascii():
+        # the names of the pool are what this class is about: at least one of them occurs
+        s = rng.choice(wanted)
+        g = rng.choice([B.RY(s), B.PHASE(2 * s), B.RZ(s / 2 + 1)])
+        c = Circuit(list(c.operations) + [g(rng.randrange(max(1, c.n_qubits)))], n_qubits=c.n_qubits)
+    return c
+
 
 def _events(mon):
     return mon.n_violations + sum(mon.known.values())
@@ -1252,14 +1439,18 @@ def _note_params(mon, circuits):
                                                     else "complex number"))
 
 
-def _run(ctx, obj, how, expect_refusal=False):
+def _run(ctx, obj, how, expect_refusal=False, other=None):
     """drive one round trip; hooks judge.  Exceptions of the library are violations recorded by the
-    hooks; one that no hook saw is recorded here."""
+    hooks; one that no hook saw is recorded here.  how = a transport name or a channel spec"""
     _REG.clear()
     _EXPR.clear()
     _note_params(ctx.mon, obj if isinstance(obj, list) else [obj])
     try:
-        img = transport(ctx.rng, obj, how, ctx.index)
+        if isinstance(how, dict):
+            spec, how = how, _spec_str(how)
+            img = transport_channel(ctx.rng, obj, spec, ctx.index, other)
+        else:
+            img = transport(ctx.rng, obj, how, ctx.index)
     except Exception as e:
         if expect_refusal and isinstance(e, ValueError):
             ctx.check("conflict-refused", True)
@@ -1384,6 +1575,28 @@ def run_case(ctx):
         if _names_redefined(flat):
             ctx.mon.note("history: one gate name, different definitions in different tasks")
         _run_history(ctx, objs, order, how)
+        return
+    if cls == "channel":
+        # what the caller hands in as target / source: open text files of many encodings (also the same handle for
+        # writing and reading, used before, with white space around the JSON text), paths of every spelling
+        # (also non-ASCII, also holding an older longer file), crossed with names outside ASCII
+        names, def_pool, gate_names, style = channel_names(rng)
+        spec = channel_spec(rng)
+        k = rng.choice([1, 1, 1, 2, 2, 3])  # one circuit, or a set of k - 1 circuits (one of them maybe twice)
+        cs = [rand_channel_circuit(rng, nprng, ctx.quick, names, def_pool, gate_names) for _ in range(max(k - 1, 1))]
+        if k >= 2 and rng.random() < 0.3:
+            cs.append(cs[0])
+        obj = cs[0] if k == 1 else cs
+        other = rand_channel_circuit(rng, nprng, ctx.quick, names, def_pool, gate_names) if spec["again"] else None
+        flat = obj if isinstance(obj, list) else [obj]
+        nonascii = any(not describe_circuit(c).isascii() for c in flat)
+        ctx.mon.note(f"channel: {spec['kind']}" + (f" {spec['enc']}" if spec["kind"] in ("file", "file+") else ""))
+        ctx.mon.note("channel: names outside ASCII" if nonascii else "channel: ASCII names only")
+        ctx.describe(f"channel[{style}] via {_spec_str(spec)}: " + (
+            "[" + " | ".join(describe_circuit(c) for c in obj) + "]" if isinstance(obj, list) else describe_circuit(obj))
+            + (f" after {describe_circuit(other)}" if other is not None else ""),
+            any(is_nontrivial(c) for c in flat))
+        _run(ctx, obj, spec, other=other)
         return
     if cls == "edge":
         kind = rng.choice(["empty", "idle", "numbers", "dedupe", "conflict", "k3", "expr", "chain", "all_builtin",
